@@ -4,7 +4,7 @@
    documents with any references between them -- cycles, self references,
    diamonds, dangling and relative locations -- or ill-formed bytes), any
    split between document store and transport, any caching policy. *)
-From SV Require Import Lib.Base C12.Url C12.Model C12.Proofs.
+From SV Require Import Lib.Base C12.Url C12.Model C12.Proofs C12.Collect.
 
 (* Loading terminates: the fuel the model gives itself (number of documents
    + 1 for the WSDL loader, number of import/include elements + 1 for each
@@ -133,4 +133,112 @@ Example cycle_nonvacuous :
   let r := client_load (mkWorld cy_docs 1 None) cy_r false io0 in
   fst (fst r) = Ok tt /\ snd r = true /\
   fetches (rev (i_log (snd (fst r)))) = [(DomW, cy_r); (DomW, cy_w); (DomS cy_w, cy_x); (DomS cy_r, cy_x)].
+Proof. vm_compute. repeat split. Qed.
+
+(* ------------------------------------------------------------------ *)
+(* what a load collects (spec and lemmas: Collect.v)                   *)
+(* ------------------------------------------------------------------ *)
+
+(* GUARDS (explicit booleans; each excludes one behaviour the unrestricted
+   statement is false for):
+     no_chameleon W  no schema document without targetNamespace (an included
+                     chameleon document is instantiated once per
+                     loaded_schemata, whatever the includer: executed
+                     correspondence only);
+     wimp_abs W      a schema document that is the target of a wsdl:import has
+                     absolute locations only (C12:wsdl-import-xsd-relative-base);
+     ranked W rk     rk ranks the documents so that every wsdl:import goes to
+                     a lower rank, i.e. the wsdl:import graph is acyclic
+                     (C12:wsdl-cycle-inline-schemas-built-by-importee,
+                      C12:wsdl-cycle-early-resolve);
+     w_shadow s = false   no located xsd:import was answered by a schema of the
+                     same WSDL collection (Import.__locate ignores the location).
+   xsd:import / xsd:include cycles, self references, diamonds at both levels
+   and relative locations everywhere else are NOT excluded. *)
+
+(* The tables of the constructed root Definitions hold exactly the
+   declarations of the documents reachable from the root (every reference
+   resolved against the URL of the document containing it): the keys of
+   messages / port types / bindings, and of the schema's elements / types. *)
+Theorem load_collects_declarations : forall W rk root i,
+  guards W rk = true -> cache_sound W (i_dcache i) -> i_reqs i = [] ->
+  forall s i', load_root io (opn_c W) (docs_of W) root i = (Ok s, i') -> w_shadow s = false ->
+  (forall n, In n (fst (collected root s)) <-> names_spec W root n) /\
+  (forall q, In q (snd (collected root s)) <-> decls_spec W root q).
+Proof.
+  intros W rk root i G Hs Er s i' Hl Hsh.
+  pose proof (load_collect_l W rk root i G Hs Er) as L. rewrite Hl in L. destruct L as [_ L]. auto.
+Qed.
+Print Assumptions load_collects_declarations.
+
+(* PARTITION EQUIVALENCE: for a well-formed interface I (schemas that refer
+   to each other by namespace only, every qualified name declared once),
+   EVERY world that is a partition of I -- any number of documents linked by
+   wsdl:import, xsd:import and xsd:include in any shape allowed by the
+   guards, whose reachable documents declare what I declares -- constructs
+   the tables of the single-document WSDL of I.  (Key sets; with unique
+   qualified names a key has one declaration, so the maps are equal.) *)
+Theorem partition_equivalent : forall I W root rk r1 pol s i' s1 i1,
+  wf_iface I -> guards W rk = true -> is_partition W root I ->
+  load_root io (opn_c W) (docs_of W) root io0 = (Ok s, i') -> w_shadow s = false ->
+  load_root io (opn_c (single r1 pol I)) (docs_of (single r1 pol I)) r1 io0 = (Ok s1, i1) ->
+  w_shadow s1 = false ->
+  same_set (fst (collected root s)) (fst (collected r1 s1)) /\
+  same_set (snd (collected root s)) (snd (collected r1 s1)).
+Proof. exact partition_equivalent_l. Qed.
+Print Assumptions partition_equivalent.
+
+(* the single-document WSDL of an interface is a partition of it *)
+Theorem single_document_is_partition : forall r pol I, wf_iface I -> is_partition (single r pol I) r I.
+Proof. exact single_is_partition. Qed.
+Print Assumptions single_document_is_partition.
+
+(* Reachable only, schema level, guarded (the WSDL level is unconditional:
+   fetch_reachable_only_partial): every fetch a schema loader makes -- in
+   successful and in failing loads -- is of a document reachable from the root. *)
+Theorem fetch_reachable_only_guarded : forall W rk root ocache i,
+  guards W rk = true -> cache_sound W (i_dcache i) -> i_reqs i = [] -> i_log i = [] ->
+  forall o a, In (DomS o, a) (fetches (i_log (snd (fst (client_load W root ocache i))))) ->
+  reach W root a.
+Proof. exact schema_requests_reachable_l. Qed.
+Print Assumptions fetch_reachable_only_guarded.
+
+(* non-vacuity: an interface (2 names, 2 schemas of 2 declarations) split
+   into four documents in two directories -- root WSDL, a WSDL with an inline
+   schema that includes a schema document by a relative location, which
+   imports back (xsd cycle) and includes itself, and a schema document
+   brought in by wsdl:import -- passes the guards, is a partition, and
+   constructs the single document's tables. *)
+Definition pe_r : str := [104;116;116;112;58;47;47;104;47;97;47;114;46;119;115;100;108]%N.
+Definition pe_w : str := [104;116;116;112;58;47;47;104;47;98;47;119;46;119;115;100;108]%N.
+Definition pe_y : str := [104;116;116;112;58;47;47;104;47;98;47;115;47;121;46;120;115;100]%N.
+Definition pe_x : str := [104;116;116;112;58;47;47;104;47;97;47;120;46;120;115;100]%N.
+Definition pe_docs : list (str * (bool * doc)) :=
+  [(pe_r, (false, DWsdl [[120;46;120;115;100]%N; [46;46;47;98;47;119;46;119;115;100;108]%N] [] [7%N]));
+   (pe_w, (true, DWsdl [] [[mkX (Some 1%N) [XInc [115;47;121;46;120;115;100]%N] [11%N]]] [8%N]));
+   (pe_y, (false, DXsd (mkX (Some 1%N) [XInc [121;46;120;115;100]%N; XImp (Some 2%N) (Some [104;116;116;112;58;47;47;104;47;97;47;120;46;120;115;100]%N)] [12%N])));
+   (pe_x, (false, DXsd (mkX (Some 2%N) [XImp (Some 1%N) (Some pe_y)] [21%N; 22%N])))].
+Definition pe_rk : list (str * nat) := [(pe_r, 1)].
+Definition pe_iface : iface :=
+  mkIface [7%N; 8%N] [mkX (Some 1%N) [XImp (Some 2%N) None] [11%N; 12%N];
+                        mkX (Some 2%N) [XImp (Some 1%N) None] [21%N; 22%N]].
+Definition qeq (a b : qn) : bool :=
+  match a, b with
+  | (Some x, n), (Some y, m) => N.eqb x y && N.eqb n m
+  | (None, n), (None, m) => N.eqb n m
+  | _, _ => false
+  end.
+Definition sub (a b : list qn) : bool := forallb (fun x => existsb (qeq x) b) a.
+Example partition_nonvacuous :
+  guards (mkWorld pe_docs 0 None) pe_rk = true /\
+  match load_root io (opn_c (mkWorld pe_docs 0 None)) (docs_of (mkWorld pe_docs 0 None)) pe_r io0,
+        load_root io (opn_c (single pe_r 0 pe_iface)) (docs_of (single pe_r 0 pe_iface)) pe_r io0 with
+  | (Ok s, _), (Ok s1, _) =>
+      w_shadow s = false /\ w_shadow s1 = false /\
+      fst (collected pe_r s) = [7%N; 8%N] /\ fst (collected pe_r s1) = [7%N; 8%N] /\
+      sub (snd (collected pe_r s)) (snd (collected pe_r s1)) = true /\
+      sub (snd (collected pe_r s1)) (snd (collected pe_r s)) = true /\
+      sub (snd (collected pe_r s1)) [(Some 1%N, 11%N); (Some 1%N, 12%N); (Some 2%N, 21%N); (Some 2%N, 22%N)] = true
+  | _, _ => False
+  end.
 Proof. vm_compute. repeat split. Qed.
